@@ -118,13 +118,15 @@ class Program:
         self.logger.info("Success !")
         return 0
 
-    def assemble(self, asm_file: str, sfc_file: Path) -> int:
+    def assemble(self, asm_file: str, sfc_file: Path, mapping: str | None = None) -> int:
         """
         Compile asmfile.
         :param asm_file:
         :param sfc_file:
+        :param mapping:
         :return: error code
         """
+        self._select_mapping(mapping)
         with open(sfc_file, "wb") as f:
             sfc_emitter = SFCWriter(f)
             return self.assemble_with_emitter(asm_file, sfc_emitter)
@@ -136,6 +138,15 @@ class Program:
         mapping: str | None = None,
         copier_header: bool = False,
     ) -> int:
+        self._select_mapping(mapping)
+        with open(ips_file, "wb") as f:
+            ips_emitter = IPSWriter(f, copier_header)
+            ips_emitter.begin()
+            exit_code = self.assemble_with_emitter(asm_file, ips_emitter)
+            ips_emitter.end()
+            return exit_code
+
+    def _select_mapping(self, mapping: str | None) -> None:
         if mapping is not None:
             address_mapping = {
                 "low": RomType.low_rom,
@@ -143,12 +154,6 @@ class Program:
                 "high": RomType.high_rom,
             }
             self.resolver.rom_type = address_mapping[mapping]
-        with open(ips_file, "wb") as f:
-            ips_emitter = IPSWriter(f, copier_header)
-            ips_emitter.begin()
-            exit_code = self.assemble_with_emitter(asm_file, ips_emitter)
-            ips_emitter.end()
-            return exit_code
 
     def exports_symbol_file(self, filename: str) -> None:
         """
